@@ -57,6 +57,10 @@ AO_ROOTS = [C.RB + "/lib", C.REPO + "/lib"]
 def generate():
     info, text = foaminfo_gen.generate(C.SRC)
     C.write_if_changed(GEN_V, text)
+    # the float atoms of the text form are modelled on C19's TextModel, whose parameters (DFloatSprint's
+    # statement shape, formats, precisions) are regenerated from the current util.c by props/c19.py
+    from props import c19
+    C.write_if_changed(os.path.join(C.COQ, c19.GEN_REL), c19.generate())
     return info
 
 
@@ -816,6 +820,10 @@ def stage_text(rep, tier, info, drv, har):
     srcs = [("g%d" % k, gen_program(rng, k)["whole"]) for k in range(2 if tier == "quick" else 6)]
     srcs += [(os.path.basename(f)[:-3], open(f, errors="replace").read()) for f in (corpus_programs() if tier != "quick" else rng.sample(corpus_programs(), 4))]
     srcs.append(("sintext", prog_sint_text()))
+    srcs.append(("floattext", prog_float_text()))
+    st["float_atoms"] = 0
+    st["float_atoms_zero_neg"] = 0
+    st["float_atoms_17_digits"] = 0
     for name, text in srcs:
         for q in (["-Q2"] if tier == "quick" else ["-Q0", "-Q2", "-Q9"]):
             d = os.path.join(work, name + q)
@@ -829,6 +837,36 @@ def stage_text(rep, tier, info, drv, har):
             toks = fm_tokens(raw)
             st["fm_files"] += 1
             st["fm_tokens"] += len(toks)
+            # float atoms: DFloatSprint's decision + sexpr.c's marker (extracted from C19's model + SFlo.v), given
+            # libc's "%#.17g" text of the value the token denotes, must be exactly the token the compiler wrote;
+            # and the token must denote a finite value (non-finite folded constants: the listed C19 finding)
+            for tk in toks:
+                if tk[0] not in "fd":
+                    continue
+                txt = unhexb(tk[1:]).decode("latin1")
+                single = tk[0] == "f"
+                try:
+                    val = float(re.sub(r"[sSfFdDlL](?=[-+]?\d+$)", "e", txt))
+                except ValueError:
+                    rep.violation(".fm holds a float atom no reader accepts: %r" % txt, {"kind": "fm-file", "program": text, "q": q, "atom": txt},
+                                  key="text:float-atom:unreadable")
+                    continue
+                if val != val or val in (float("inf"), float("-inf")):
+                    continue
+                st["float_atoms"] += 1
+                neg = struct.pack(">d", val)[0] & 0x80 != 0
+                if val == 0.0 and neg:
+                    st["float_atoms_zero_neg"] += 1
+                ptxt = "%#.17g" % val
+                if float("%.16g" % val) != val:
+                    st["float_atoms_17_digits"] += 1
+                fa = drv.ask("lexf %d %d %d %s" % (single, val == 0.0, neg, ptxt.encode().hex()))
+                mine = unhexb(fa).decode("latin1") if fa and not fa.startswith("ERR") else None
+                if mine != txt and ("fl", single) not in seen:
+                    seen.add(("fl", single))
+                    # property side first: does the written text denote another value than a 17-digit text would?
+                    rep.violation("correspondence C05/text no longer checks: float atom %r, model spelling %r" % (txt, mine),
+                                  {"kind": "fm-file", "program": text, "q": q, "atom": txt, "model": mine}, no_input=True)
             a = drv.ask("rdwr " + " ".join(toks), timeout=300)
             if a is None or a.startswith(("NONE", "ERR")):
                 rep.violation("correspondence C05/text: the model reader rejects a .fm file the compiler wrote (%s)" % (a or "died")[:40],
@@ -894,7 +932,7 @@ def py_sections(d, lib):
     return num, ent
 
 
-def check_ao(path, info, drv, har, with_c):
+def check_ao(path, info, drv, har, with_c, expect_names=()):
     """Returns (list of problems, stats)."""
     lib = info["lib"]
     d = open(path, "rb").read()
@@ -934,7 +972,103 @@ def check_ao(path, info, drv, har, with_c):
             want = "A"
         if cl[n] != want:
             probs.append("section %s content differs" % info["sect_names"][n])
-    st = {"bytes": len(d), "foam": 0, "nodes": 0}
+    st = {"bytes": len(d), "foam": 0, "nodes": 0, "names": 0}
+    # ---- section contents: LIB_Id and LIB_Name (model decode / re-encode / dedupe, against an independent reading)
+    names_no = info["sect_names"].index("name")
+    id_no = info["sect_names"].index("fileid")
+    if id_no in last and last[id_no][0] != 0:
+        off, ln = last[id_no]
+        sec = d[off:off + ln]
+        a = drv.ask("fileid " + hexb(sec))
+        cc = struct.unpack_from("<I", sec, 0)[0] if len(sec) >= 4 else -1
+        want = sec[4:4 + cc - 1] if cc >= 1 else None
+        if a is None or not a.startswith("OK"):
+            probs.append("model cannot read the fileid section")
+        else:
+            p = a.split()
+            if unhexb(p[1]) != want or p[2] != "-" or p[3] != hexb(sec):
+                probs.append("fileid section does not round-trip through the model")
+            if want is not None and os.path.basename(path)[:-3].encode() != want:
+                probs.append("fileid %r is not the unit's name" % want)
+    if names_no in last and last[names_no][0] != 0:
+        off, ln = last[names_no]
+        sec = d[off:off + ln]
+        a = drv.ask("names " + hexb(sec), timeout=120)
+        # independent reading
+        try:
+            symec, topc = struct.unpack_from("<HH", sec, 0)
+            pos, pairs = 4, {}
+            while True:
+                i = struct.unpack_from("<H", sec, pos)[0]
+                pos += 2
+                if i >= symec:
+                    break
+                pairs[i] = struct.unpack_from("<H", sec, pos)[0]
+                pos += 2
+            strs = sec[pos:].split(b"\0")[:-1]
+            names, it = [], iter(strs)
+            for i in range(symec):
+                names.append(names[pairs[i]] if i in pairs else next(it))
+            tail_ok = len(strs) == symec - len(pairs)
+        except Exception:
+            names, topc, symec, tail_ok = None, None, None, False
+        if a is None or not a.startswith("OK"):
+            probs.append("model cannot read the name section (%s)" % (a or "died")[:20])
+        else:
+            h, nl, re_enc = [x.strip() for x in a.split("|")]
+            hh = h.split()
+            mnames = [unhexb(x) for x in nl.split()]
+            st["names"] = len(mnames)
+            if [unhx(hh[1]), unhx(hh[2])] != [symec, topc] or hh[3] != "-" or hh[4] != hexb(sec):
+                probs.append("name section: enc(dec(section)) differs from the section")
+            if mnames != names or not tail_ok:
+                probs.append("name section: model and independent reading give different name lists")
+            if re_enc != hexb(sec):
+                probs.append("name section: writing the rebuilt name list (dedupe) does not reproduce the section")
+            # kind / lazy / file: index-keyed records over the same syme numbering
+            for which in ("kind", "lazy", "file"):
+                no = info["sect_names"].index(which)
+                if not (no in last and last[no][0] != 0) or symec is None:
+                    continue
+                o2, l2 = last[no]
+                sc = d[o2:o2 + l2]
+                b = drv.ask("sect %s %x %s" % (which, symec, hexb(sc)), timeout=60)
+                if b is None or not b.startswith("OK"):
+                    probs.append("model cannot read the %s section" % which)
+                    continue
+                hd, recs, reenc = [x.strip() for x in b.split("|")]
+                if hd.split()[1:] != ["-"] or reenc != hexb(sc):
+                    probs.append("%s section: enc(dec(section)) differs from the section" % which)
+                # independent reading
+                try:
+                    if which == "kind":
+                        ok2 = (len(sc) == symec and recs == hexb(sc))
+                    else:
+                        pos, want = 0, []
+                        while True:
+                            i = struct.unpack_from("<H", sc, pos)[0]
+                            pos += 2
+                            if i >= symec:
+                                break
+                            if which == "lazy":
+                                nn, hh2 = struct.unpack_from("<HI", sc, pos)
+                                pos += 6
+                                want.append("%x:%x:%x" % (i, nn, hh2))
+                            else:
+                                kd = sc[pos]
+                                e2 = sc.index(b"\0", pos + 1)
+                                want.append("%x:%x:%s" % (i, kd, hexb(sc[pos + 1:e2])))
+                                pos = e2 + 1
+                        idx = [int(x.split(":")[0], 16) for x in want]
+                        ok2 = (recs.split() == want and pos == len(sc) and idx == sorted(set(idx)))
+                except Exception:
+                    ok2 = False
+                if not ok2:
+                    probs.append("%s section: model and independent reading differ" % which)
+                st["recs_" + which] = len(recs.split()) if which != "kind" else symec
+            missing = [x for x in expect_names if x.encode() not in mnames]
+            if missing:
+                probs.append("name section lacks the exported name(s) %s" % ", ".join(missing[:3]))
     if 1 in last and last[1][0] != 0:
         off, ln = last[1]
         foam = d[off:off + ln]
@@ -985,7 +1119,7 @@ def stage_ao(rep, tier, info):
         with_c = set(files)
     nworkers = min(8, C.NCPU)
     chunks = [pick[i::nworkers] for i in range(nworkers)]
-    tot = {"files": 0, "bytes": 0, "foam_bytes": 0, "nodes": 0, "c_checked": 0, "bad": 0}
+    tot = {"files": 0, "bytes": 0, "foam_bytes": 0, "nodes": 0, "c_checked": 0, "bad": 0, "names": 0}
 
     def work(chunk):
         drv, har = Line(build_driver()), Line(build_harness())
@@ -1005,6 +1139,9 @@ def stage_ao(rep, tier, info):
                 tot["bytes"] += st.get("bytes", 0)
                 tot["foam_bytes"] += st.get("foam", 0)
                 tot["nodes"] += st.get("nodes", 0)
+                tot["names"] += st.get("names", 0)
+                for w in ("kind", "lazy", "file"):
+                    tot["recs_" + w] = tot.get("recs_" + w, 0) + st.get("recs_" + w, 0)
                 tot["c_checked"] += 1 if f in with_c else 0
                 if probs:
                     tot["bad"] += 1
@@ -1064,6 +1201,9 @@ def gen_program(rng, k):
     for i, v in enumerate(strs):
         sig.append("  st%d: () -> String;" % i)
         body.append("  st%d(): String == %s;" % (i, lit(v)))
+    longname = "aVeryLongExportedOperationNameOfFortyEightChars%d" % (k % 10)
+    sig.append("  %s: MachineInteger -> MachineInteger;" % longname)
+    body.append("  %s(x: MachineInteger): MachineInteger == x + %d;" % (longname, r.randrange(1, 99)))
     sig.append("  twice: MachineInteger -> MachineInteger;")
     body.append("  twice(x: MachineInteger): MachineInteger == x + x + %d;" % r.randrange(0, 1 << 40))
     sig.append("  pair: MachineInteger -> (MachineInteger, MachineInteger);")
@@ -1084,11 +1224,13 @@ def gen_program(rng, k):
         use.append("stdout << bi%d() << newline;" % i)
     for i in range(len(strs)):
         use.append("stdout << st%d() << newline;" % i)
+    use.append("stdout << %s(%d) << newline;" % (longname, r.randrange(0, 1000)))
     use.append("stdout << twice(%d) << newline;" % r.randrange(0, 1 << 35))
     use.append("(pa, pb) := pair(%d); stdout << pa << \" \" << pb << newline;" % r.randrange(0, 1000))
     usetxt = "\n".join(use) + "\n"
     name = "g%d" % k
-    return {"name": name,
+    exported = [re.match(r"\s*(\w+):", x).group(1) for x in sig] + [dom]
+    return {"name": name, "exported": exported,
             "whole": libtxt + usetxt,
             "lib": libtxt,
             "client_ao": hdr + '#library LL "%sl.ao"\nimport from LL;\n' % name + imp + usetxt,
@@ -1536,6 +1678,27 @@ def prog_high_char():
             'c: Character == char 233;\nstdout << ord c << newline;\n')
 
 
+def prog_float_text():
+    """float constants through the text form: both zeros, values that need 17 digits, extremes, single floats"""
+    ds = ["0.0", "0.1", "0.30000000000000004", "1.7976931348623157e308", "2.2250738585072014e-308", "4.9e-324",
+          "123456789.12345678", "9007199254740993.0", "5e-324", "1.0e22", "1.0e23", "2.5"]
+    ss = ["0.0", "0.1", "3.4028235e38", "1.17549435e-38", "1.0e-45", "16777217.0", "2.5"]
+    L = ['#include "aldor"', '#include "aldorio"', "import from DoubleFloat, SingleFloat;", "FooF: with {"]
+    L += ["  d%d: () -> DoubleFloat; nd%d: () -> DoubleFloat;" % (i, i) for i in range(len(ds))]
+    L += ["  s%d: () -> SingleFloat; ns%d: () -> SingleFloat;" % (i, i) for i in range(len(ss))]
+    L += ["} == add {"]
+    for i, v in enumerate(ds):
+        L += ["  d%d(): DoubleFloat == %s;" % (i, v), "  nd%d(): DoubleFloat == -%s;" % (i, v)]
+    for i, v in enumerate(ss):
+        L += ["  s%d(): SingleFloat == %s;" % (i, v), "  ns%d(): SingleFloat == -%s;" % (i, v)]
+    L += ["}", "import from FooF;"]
+    for i in range(len(ds)):
+        L.append("stdout << d%d() << \" \" << nd%d() << newline;" % (i, i))
+    for i in range(len(ss)):
+        L.append("stdout << s%d() << \" \" << ns%d() << newline;" % (i, i))
+    return "\n".join(L) + "\n"
+
+
 def stage_e2e(rep, tier, info):
     exe = C.build_compiler()
     work = C.scratch("c05e2e")
@@ -1559,6 +1722,8 @@ def stage_e2e(rep, tier, info):
     for q in levels:
         jobs.append(("routes", "sintext", prog_sint_text(), q, "-laldor"))
     jobs.append(("routes", "highchar", prog_high_char(), "-Q2", "-laldor", "e2e:ao:Char-constant-above-127"))
+    for q in levels:
+        jobs.append(("routes", "floattext", prog_float_text(), q, "-laldor"))
     st = {"programs_generated": len(progs), "programs_corpus": 0, "compiled": 0, "skipped_not_compiling": []}
 
     def one(j):
@@ -1567,10 +1732,13 @@ def stage_e2e(rep, tier, info):
         return j, e.routes(j[1], j[2], j[3], libflag=j[4] or "-laldor", run=(j[0] == "routes"),
                            collapse=(j[5] if len(j) > 5 else None))
     done_corpus = set()
+    fresh = []          # .ao files written by the REBUILT compiler (the library files of the tree were written earlier)
     with concurrent.futures.ThreadPoolExecutor(min(8, C.NCPU)) as ex:
         for j, r in ex.map(one, jobs):
             if j[0] == "split":
                 continue
+            if r is not None and r.get("ao") and len(fresh) < (12 if tier == "quick" else 60):
+                fresh.append((j[1], j[3], r["ao"]))
             if r is None:
                 st["skipped_not_compiling"].append("%s%s" % (j[1], j[3]))
             else:
@@ -1580,6 +1748,25 @@ def stage_e2e(rep, tier, info):
     if st["compiled"] == 0:
         rep.violation("end-to-end: not one generated or corpus program compiles from source with the rebuilt compiler",
                       {"kind": "e2e-none", "jobs": len(jobs)}, no_input=True)
+    # the container and the modelled section contents of what THIS compiler wrote
+    drv, har = Line(build_driver()), Line(build_harness())
+    st["fresh_ao_checked"] = 0
+    for name, q, data in fresh:
+        fp = os.path.join(work, "fresh-%s%s" % (name, q))
+        os.makedirs(fp, exist_ok=True)
+        fn = os.path.join(fp, name + ".ao")
+        with open(fn, "wb") as f:
+            f.write(data)
+        exp = next((pp["exported"] for pp in progs if pp["name"] + "w" == name), ())
+        probs, _ = check_ao(fn, info, drv, har, True, expect_names=exp)
+        st["fresh_ao_checked"] += 1
+        if probs:
+            e.report("ao-written-now:" + ";".join(sorted(set(p.split(" (")[0] for p in probs)))[:110],
+                     "a unit saved by the rebuilt compiler does not read back as written: %s" % "; ".join(probs)[:250],
+                     {"kind": "e2e", "program": next(jj[2] for jj in jobs if jj[0] != "split" and jj[1] == name), "name": name, "q": q,
+                      "problems": probs})
+    drv.close()
+    har.close()
     st["programs_corpus"] = len(done_corpus)
     st["skipped_not_compiling"] = sorted(set(s[:-3] for s in st["skipped_not_compiling"]))[:20]
     st["compiler_runs"] = e.runs
@@ -1648,7 +1835,8 @@ def run(rep, tier):
         "floats are carried as their portable 6/10-byte images; native<->portable conversion is C19's subject",
         "Prog size field: the model emits the final back-patched value directly (foam_params_ok: X only first letter of Prog)",
         "decoder refuses an n-ary count larger than the input length + IMMED_FORMS up front (C would run off the buffer)",
-        "not modelled: syme/type/pos sections of the .ao, the .fm s-expression reader/writer, archive.c -- end-to-end only",
+        "section CONTENTS modelled: foam (codec), fileid, name, kind, lazy, file; not modelled (end-to-end only): type, inline, twins, "
+        "extend, doc, foreign, syme, fsyme, pos, postbl, macros; the .fm layout (line breaking) is not modelled; archive.c is C17's",
         "tree domain excludes node kinds the compiler never builds (Arb, Rec, TR as nodes; CFCall/OFCall abort in foamTagFormat)",
         "e2e normalisations: the file name inside the 'generated by Aldor from file' line; on the .ao route an integer "
         "literal outside int32 may be replaced by an SIntOr/SIntShiftUp/SIntNegate expression that evaluates (64-bit) to the same value",
